@@ -52,6 +52,8 @@ func PlanCases(prop, tier string, seed int64) (cases []*Case, rule []string) {
 		add(n(40, 600), "the dictionary enumerator (k-way merge) over 1-4 real vellum FSTs (empty dictionaries, the empty term alone or with others, 1-hit values) walked with Current / GetLowIdxsAndValues / Next and compared with the enumerator model", func() *Case { return g.UnitEnumerator() })
 		add(n(5, 60), "a first input with every field and a later input (no deletions) with a strict subset of them, merged in several orders and as merges of merges: stored values must keep their field", func() *Case { return g.SubsetFieldsMerge() })
 		add(n(3, 12), "a term with 1,023 / 1,024 / 2,047 postings in a built input plus one 1-hit posting in a previously merged input whose document is (or is not) deleted in this merge: writer and reader must agree on the chunk size", func() *Case { return g.OneHitBoundary() })
+		add(n(1, 6), "2,050-2,250 documents, two doc-value fields of different sparsity (values only in the first documents / nothing in the middle chunk) written one after the other, built and merged", func() *Case { return g.SparseDVFields(false) })
+		add(n(1, 6), "1,200-1,400 documents, a doc-value field whose first 1,024-document chunk is empty, a doc-value field without any term, a merge deleting every document with a value; built, merged, reloaded from a file", func() *Case { return g.EmptyFirstDVChunk(false) })
 	case "C03":
 		add(n(140, 2000), "merge with random deletion sets (nil, empty, sparse, dense, everything) and report DocumentNumbers", func() *Case { return g.MergeObs() })
 		add(n(12, 150), "segments with identical field lists merged without deletions (byte-copy path across 128-document blocks): content at the reported numbers", func() *Case { return g.CopyPathMerge() })
@@ -65,6 +67,7 @@ func PlanCases(prop, tier string, seed int64) (cases []*Case, rule []string) {
 		add(n(2, 12), "merges with exactly 1,024 or 2,048 survivors (last doc-value and postings chunk exactly full), dumped, reloaded from memory and from a file", func() *Case { return g.ExactChunkMerge() })
 		add(n(4, 40), "a zero-document merge output that kept its field list, reloaded and merged in every position with a segment that has fewer fields", func() *Case { return g.ZeroDocFieldsMerge() })
 		add(n(7, 28), "the smallest files ice writes (one document with only _id, with or without doc values or stored value, the empty term alone, no _id at all): built, merged, loaded from memory and from a file; the loader models run on the real bytes", func() *Case { return g.TinyShapes() })
+		add(n(1, 6), "a merge whose term cardinalities sit around the 1,024-posting boundary of the adaptive chunk mode (an empty first term after a long last term), also reloaded", func() *Case { return g.ChunkBoundaryMerge() })
 	case "C05":
 		add(n(150, 2500), "a built/loaded/merged segment and 8 iterators with random exclusions, flags, Next/Advance sequences", func() *Case { return g.IterCase(8) })
 		add(n(2, 20), "merges whose term cardinalities sit around the 1,024-posting boundary of the adaptive chunk mode (writer and reader must derive the same chunk size)", func() *Case { return g.ChunkBoundaryMerge() })
